@@ -245,20 +245,16 @@ def has_inexact(av):
 
 
 def update_explained_by_floats(case):
+    """the outcome is exactly what the same update gives when numbers are IEEE-754 doubles written
+    back with the shortest round-trip digits (and it is not what exact decimals give)"""
     try:
-        want = spec.apply_update(case["tree"], case["item"])
+        want = spec.apply_update_floats(case["tree"], case["item"])
     except Exception:
         return False
     got = case["impl"].get("ok")
     if got is None:
         return False
-    a = tuple(sorted((k, approx(v)) for k, v in want))
-    b = tuple(sorted((k, approx(v)) for k, v in got))
-    if a == b:
-        return True
-    # members of a number set that are one double (9007199254740992 / ...993) are one member
-    sets = [v for _, v in list(case["item"]) + list(case.get("values") or []) if tag(v) == "NS"]
-    return any(has_inexact(v) for v in sets)
+    return spec.canon_item(want, True) == spec.canon_item(got, True)
 
 
 def path_operands(node):
